@@ -115,7 +115,7 @@ PROPS = {
         level_note="an error is attributed by the entity id of the message; descriptor messages carry no entity id and are counted; "
                    "breaches that would cancel or invalidate each other (descriptors deleted under a breached tag unit, repeated edits of "
                    "one array) are not combined",
-        quick=dict(cases=100, size=400, workers=16, timeout=1800),
+        quick=dict(cases=300, size=400, workers=16, timeout=1800),
         thorough=dict(cases=3000, size=400, workers=16, timeout=14400),
         rule="tape -> conforming file, breach list. Non-trivial: at least 2 blocks or an array of rank >= 2, at least one hard breach, and a "
              "breach that is not on the first array / first dimension / first unit / first feature. Distinct = hash of the decoded case.",
@@ -149,7 +149,7 @@ PROPS = {
         level_note="model = row-major vector + extent; calibrated reads are compared with the polynomial at (stored-origin) under a relative "
                    "tolerance of 1e-9 of the sum of the absolute terms (any evaluation order passes) and exactly when all operands are small "
                    "integers; cross-type reads only for values exactly representable in the requested type",
-        quick=dict(cases=500, size=500, workers=16, timeout=1800),
+        quick=dict(cases=1500, size=500, workers=16, timeout=1800),
         thorough=dict(cases=12000, size=500, workers=16, timeout=14400),
         rule="tape -> element type, rank 1-4, initial extent per axis (0, 1, 2-6), file/array compression, then up to 40 operations. "
              "Non-trivial: at least 2 writes, at least one extent change or append and at least one later read that overlaps both written "
@@ -165,7 +165,7 @@ PROPS = {
                    "ascending / interval > 0 / alias mirrors array are checked on the observed state",
         level_note="a call that throws must leave the model (and therefore the observed list) unchanged; a call that succeeds updates the model "
                    "with the values given, so an accepted illegal value fails the invariant; offset none is treated as 0.0",
-        quick=dict(cases=400, size=300, workers=16, timeout=1800),
+        quick=dict(cases=1200, size=300, workers=16, timeout=1800),
         thorough=dict(cases=10000, size=300, workers=16, timeout=14400),
         rule="tape -> element type, rank, up to 30 operations {append x5 kinds, modify parameter of descriptor k, deleteDimensions, reopen ro/rw, "
              "array-side writes, late alias}. Non-trivial: at least 3 descriptors of at least 2 kinds with a modification after a reopen, or an "
@@ -195,7 +195,7 @@ PROPS = {
                    "back through readRow, readCells, readCell and readColumn (resize on/off, offset) and compared with the model table, "
                    "together with columns(), colIndex, colName, rows()",
         level_note="std::vector<bool> has no column front end, Bool columns are read through the row and cell paths only",
-        quick=dict(cases=120, size=300, workers=16, timeout=1800),
+        quick=dict(cases=200, size=300, workers=16, timeout=1800),
         thorough=dict(cases=3000, size=300, workers=16, timeout=14400),
         rule="tape -> schema, compression, up to 20 operations. Non-trivial: a cell/column write together with at least 2 row-count changes, or a "
              "String column with rows that were never written. Distinct = hash of the decoded history.",
@@ -227,7 +227,7 @@ PROPS = {
                    "executable defines time(), so equal / adjacent / distant start seconds are produced at will), created by exec or by fork "
                    "from a parent that has already created ids; all ids of all processes must be pairwise distinct and well-formed",
         level_note="distinctness of random ids is probabilistic: the check can show collisions, not their impossibility; only time() is faked",
-        quick=dict(cases=120, size=300, workers=16, timeout=1800),
+        quick=dict(cases=300, size=300, workers=16, timeout=1800),
         thorough=dict(cases=2500, size=300, workers=16, timeout=14400),
         rule="tape -> history (profile Valid, reopen steps) or schedule (process count, start seconds, exec or fork, ids per process). Non-"
              "trivial: history with at least 2 sessions and 3 creates; schedule with at least 2 processes sharing a start second, or forked "
@@ -286,7 +286,7 @@ PROPS = {
                    "handles must throw, the bytes must not change, Overwrite must succeed",
         level_note="covers the death of the process (what the statement says), not of the operating system; a crash between a modification "
                    "and the next flush has no required outcome and is not generated; flush() returning false carries no obligation",
-        quick=dict(cases=120, size=600, workers=16, timeout=1800),
+        quick=dict(cases=300, size=600, workers=16, timeout=1800),
         thorough=dict(cases=4000, size=600, workers=16, timeout=14400),
         rule="tape -> {crash case | handles case}. Non-trivial: a kill right after a flush that followed at least 1 successful delete/"
              "unlink and 3 creates; a close with live handles of at least 3 different kinds. Distinct = hash of the decoded case.",
